@@ -22,6 +22,7 @@ const (
 	progRemoveMany        // remove keys until a node is emptied / unlinked
 	progNewStore          // create a second store and add its first items (new root)
 	progTwoStores         // change two existing stores in one transaction
+	progTwoStoresMixed    // two stores: the first gains an item, the second is only updated (net count delta zero)
 	progCount
 )
 
@@ -57,7 +58,7 @@ func vfCommitted(prog int) *vfScenario {
 		b1.Add(ctx, kv.k, kv.v)
 	}
 	s.before1 = vfBase1
-	if prog == progTwoStores {
+	if prog == progTwoStores || prog == progTwoStoresMixed {
 		b2, _ := NewBtree[int, string](ctx, vfStoreOptions("s2", s.slot, true), t, nil)
 		for _, kv := range vfBase2 {
 			b2.Add(ctx, kv.k, kv.v)
@@ -68,7 +69,7 @@ func vfCommitted(prog int) *vfScenario {
 	if err := t.Commit(ctx); err != nil {
 		panic("baseline commit failed: " + err.Error())
 	}
-	if prog == progAddOne || prog == progMixed || prog == progNewStore || prog == progTwoStores {
+	if prog == progAddOne || prog == progMixed || prog == progNewStore || prog == progTwoStores || prog == progTwoStoresMixed {
 		s.k = zzvf.Int("key")
 		for _, kv := range vfBase1 {
 			zzvf.Assume(s.k != kv.k)
@@ -124,6 +125,9 @@ func (s *vfScenario) run(ctx context.Context, t sop.Transaction) bool {
 		b2 := open("s2")
 		must(b2.Update(ctx, 1, "X"))
 		must(b2.Add(ctx, s.k, "new2"))
+	case progTwoStoresMixed:
+		must(open("s1").Add(ctx, s.k, "new"))
+		must(open("s2").Update(ctx, 2, "Y"))
 	}
 	return ok
 }
@@ -165,6 +169,9 @@ func (s *vfScenario) after() (a1, a2 []vfKV, has2 bool) {
 	case progTwoStores:
 		a1 = vfSortKV(append(append([]vfKV{}, a1...), vfKV{s.k, "new"}))
 		a2 = vfSortKV(append(repl(a2, 1, "X"), vfKV{s.k, "new2"}))
+	case progTwoStoresMixed:
+		a1 = vfSortKV(append(append([]vfKV{}, a1...), vfKV{s.k, "new"}))
+		a2 = repl(a2, 2, "Y")
 	}
 	return
 }
